@@ -104,6 +104,9 @@ func (v *FnVC) callCommon(c *ssa.CallCommon, val ssa.Value, pos token.Pos, how s
 			v.noteUncontracted(key, short)
 		}
 		if v.w.isPureExtern(key) {
+			old := v.get("nextref")
+			nn := v.havoc("nextref")
+			v.assume(fmt.Sprintf("(>= %s %s)", nn, old))
 			mkResults()
 			for _, r := range results {
 				v.assume(v.rangeOf(r.S, r.T))
@@ -256,16 +259,9 @@ func (v *FnVC) applyModifies(fc *FuncContract, cenv *Env, pre State) {
 	for _, m := range fc.Modifies {
 		v.havocItem(m, cenv, pre, oldNext)
 	}
-	allocs := false
-	for _, m := range fc.Modifies {
-		if m == "alloc" || m == "heap" {
-			allocs = true
-		}
-	}
-	if allocs {
-		n := v.havoc("nextref")
-		v.assume(fmt.Sprintf("(>= %s %s)", n, oldNext))
-	}
+	// every call may allocate
+	n := v.havoc("nextref")
+	v.assume(fmt.Sprintf("(>= %s %s)", n, oldNext))
 }
 
 // havocItem: one item of a modifies clause.
@@ -300,6 +296,23 @@ func (v *FnVC) havocItem(m string, cenv *Env, pre State, oldNext string) {
 		return
 	}
 	switch x := e.(type) {
+	case *IndexE:
+		if id, ok := x.X.(*Ident); ok {
+			if g, ok := v.w.cs.Ghosts[id.Name]; ok {
+				key := v.w.ghostKey(g)
+				gt := v.w.heapTypes[key]
+				if isGhostMap(gt) {
+					idx := v.specTerm(x.I, cenv, nil)
+					et := gt.Underlying().(*types.Map).Elem()
+					c := v.fresh("gloc")
+					v.declare(c, v.sortOf(et))
+					v.set(key, v.heapSort(key), fmt.Sprintf("(store %s %s %s)", v.get(key), idx.S, c))
+					v.assume(v.rangeOf(c, et))
+					return
+				}
+			}
+		}
+		v.unsupported("modifies item " + m)
 	case *SelE:
 		// T.f (type) or x.f (object)
 		if id, ok := x.X.(*Ident); ok {
